@@ -432,7 +432,10 @@ func initCertificate(c CertConfig) (*config.CertificateContent, error) {
 		}
 	}
 
-	c.Manipulations.Apply(&out)
+	err = c.Manipulations.Apply(&out)
+	if err != nil {
+		return nil, err
+	}
 
 	out.Extensions, err = parseExtensions(c.Extensions)
 	if err != nil {
